@@ -28,14 +28,14 @@ def random_positions(rng, p=0.5, at_least=2):
     return ps
 
 
-def random_layout(rng, nax=None, nmin=2, nmax=6, names=None, p=0.5, all_positions=False):
+def random_layout(rng, nax=None, nmin=2, nmax=6, names=None, p=0.5, all_positions=False, at_least=2):
     """Layout descriptor: list of axes, each {"name", "pos": [[position, dim], ...], "n"}."""
     if nax is None:
         nax = rng.randint(1, 3)
     names = names or rng.sample(AXIS_NAME_POOL, nax)
     axes = []
     for a in names[:nax]:
-        ps = POSITIONS[:] if all_positions else random_positions(rng, p)
+        ps = POSITIONS[:] if all_positions else random_positions(rng, p, at_least)
         if all_positions:
             rng.shuffle(ps)
         axes.append({"name": a, "pos": [[q, f"{a.lower()}_{q[0]}{q[1]}"] for q in ps], "n": rng.randint(nmin, nmax)})
